@@ -272,6 +272,12 @@ def run_tlc(module, cfg, consts=None, workers=None, timeout=900, extra_files=Non
     return r
 
 
+def check_tlc_error(r, what):
+    """an error other than a violated invariant / property is a broken specification or harness: infrastructure"""
+    if r.violation and not re.search(r"Invariant \S+ is violated|is violated|Deadlock reached", r.violation):
+        raise InfraError("TLC error while %s (not a verdict):\n%s" % (what, r.raw_tail[-2500:]))
+
+
 def tla_str(s):
     return '"' + s.replace("\\", "\\\\").replace('"', '\\"') + '"'
 
